@@ -716,20 +716,18 @@ fn main() {
     let w = build(specs);
     let mut r = Runner { w, rep, camdrv: args.camdrv.clone() };
 
-    // ----- replay -----
-    if let Some(path) = &args.replay {
-        let v: Value = serde_json::from_str(&std::fs::read_to_string(path).unwrap()).unwrap();
-        let rp = &v["replay"];
+    // ----- replay / corpus -----
+    fn run_replay(r: &mut Runner, rp: &Value, rng: &mut Rng, src: &str) {
         let sp = &rp["spec"];
         let kind = sp["kind"].as_str().unwrap();
-        let want = (kind.to_string(), sp["len"].as_i64().unwrap(), sp["be"].as_bool().unwrap(), sp["signed"].as_bool().unwrap(), sp["chunk"].as_bool().unwrap());
-        // same configuration at another address is the same code path: rebuild the exact node
+        // same configuration: rebuild exactly this node
         let spec = Spec {
             name: "Replay".into(),
             kind: match kind { "IntReg" => Kind::IntReg, "FloatReg" => Kind::FloatReg, "StringReg" => Kind::StringReg, _ => Kind::Register },
-            len: want.1, be: want.2, signed: want.3, addr: sp["addr"].as_str().unwrap().parse().unwrap(), chunk: want.4,
+            len: sp["len"].as_i64().unwrap(), be: sp["be"].as_bool().unwrap(), signed: sp["signed"].as_bool().unwrap(),
+            addr: sp["addr"].as_str().unwrap().parse().unwrap(), chunk: sp["chunk"].as_bool().unwrap(),
         };
-        r.w = build(vec![spec]);
+        let saved = std::mem::replace(&mut r.w, build(vec![spec]));
         let base: i64 = rp["base"].as_str().unwrap().parse().unwrap();
         let img = unhex(rp["img"].as_str().unwrap());
         let refuse: Vec<u64> = match rp["refuse"].as_str().unwrap() { "-" => vec![], s => s.split(',').map(|x| x.parse().unwrap()).collect() };
@@ -737,21 +735,35 @@ fn main() {
         let fbits = |a: &str| u64::from_str_radix(a.trim_start_matches("f:"), 16).unwrap();
         let dev = RecDevice::new(base, img, refuse);
         match rp["op"].as_str().unwrap() {
-            "int.value" => { r.case(0, Op::IntValue, dev, "replay"); }
-            "int.set" => { r.case(0, Op::IntSet(arg.parse().unwrap()), dev, "replay"); }
-            "int.roundtrip" => r.int_roundtrip(0, arg.parse().unwrap(), &mut rng, "replay"),
-            "float.value" => { r.case(0, Op::FloatValue, dev, "replay"); }
-            "float.set" => { r.case(0, Op::FloatSet(fbits(arg)), dev, "replay"); }
-            "float.roundtrip" => r.float_roundtrip(0, fbits(arg), &mut rng, "replay"),
-            "str.value" => { r.case(0, Op::StrValue, dev, "replay"); }
-            "str.set" => { r.case(0, Op::StrSet(String::from_utf8(unhex(arg)).unwrap()), dev, "replay"); }
-            "str.roundtrip" => r.str_roundtrip(0, &String::from_utf8(unhex(arg)).unwrap(), &mut rng, "replay"),
-            "reg.read" => { r.case(0, Op::RegRead(arg.parse().unwrap()), dev, "replay"); }
-            "reg.write" => { r.case(0, Op::RegWrite(unhex(arg)), dev, "replay"); }
+            "int.value" => { r.case(0, Op::IntValue, dev, src); }
+            "int.set" => { r.case(0, Op::IntSet(arg.parse().unwrap()), dev, src); }
+            "int.roundtrip" => r.int_roundtrip(0, arg.parse().unwrap(), rng, src),
+            "float.value" => { r.case(0, Op::FloatValue, dev, src); }
+            "float.set" => { r.case(0, Op::FloatSet(fbits(arg)), dev, src); }
+            "float.roundtrip" => r.float_roundtrip(0, fbits(arg), rng, src),
+            "str.value" => { r.case(0, Op::StrValue, dev, src); }
+            "str.set" => { r.case(0, Op::StrSet(String::from_utf8(unhex(arg)).unwrap()), dev, src); }
+            "str.roundtrip" => r.str_roundtrip(0, &String::from_utf8(unhex(arg)).unwrap(), rng, src),
+            "reg.read" => { r.case(0, Op::RegRead(arg.parse().unwrap()), dev, src); }
+            "reg.write" => { r.case(0, Op::RegWrite(unhex(arg)), dev, src); }
             other => panic!("unknown replay op {other}"),
         }
+        r.w = saved;
+    }
+    if let Some(path) = &args.replay {
+        let v: Value = serde_json::from_str(&std::fs::read_to_string(path).unwrap()).unwrap();
+        run_replay(&mut r, &v["replay"], &mut rng, "replay");
         r.rep.write(&args);
         return;
+    }
+    // minimised past failures first
+    let mut corpus: Vec<_> = std::fs::read_dir("/verif/corpus/C01").map(|d| d.filter_map(|e| e.ok()).map(|e| e.path()).collect()).unwrap_or_default();
+    corpus.sort();
+    for pth in corpus {
+        if pth.extension().map_or(false, |e| e == "json") {
+            let v: Value = serde_json::from_str(&std::fs::read_to_string(&pth).unwrap()).unwrap();
+            run_replay(&mut r, &v["replay"], &mut rng, "corpus");
+        }
     }
 
     let thorough = args.thorough();
